@@ -32,17 +32,18 @@ var allSkippers = []string{skBinary, skBufBytes, skDecBytesR, skBytesSkip, skTpl
 func isStreamSkipper(s string) bool { return s == skBufStream || s == skDecStream || s == skReaderSkip }
 
 type skipOut struct {
-	OK       bool
-	N        int    // reported / consumed length
-	Bytes    []byte // decoder result (nil for the non-decoder skippers)
-	HasBytes bool
-	Err      error
-	Panic    *mc.PanicInfo
-	AllocCap bool
-	ReadLen  int  // bufiox ReadLen after the call (-1 if n/a)
-	SrcOut   int  // bytes the io.Reader handed out (-1 if n/a)
-	NextByte int  // first byte readable after the call (-1 = none / not probed)
-	NextOK   bool // NextByte probed
+	LateReads int // Read calls issued on the source after the whole value had been delivered
+	OK        bool
+	N         int    // reported / consumed length
+	Bytes     []byte // decoder result (nil for the non-decoder skippers)
+	HasBytes  bool
+	Err       error
+	Panic     *mc.PanicInfo
+	AllocCap  bool
+	ReadLen   int  // bufiox ReadLen after the call (-1 if n/a)
+	SrcOut    int  // bytes the io.Reader handed out (-1 if n/a)
+	NextByte  int  // first byte readable after the call (-1 = none / not probed)
+	NextOK    bool // NextByte probed
 }
 
 func setAllocCap(n int) {
@@ -52,6 +53,10 @@ func setAllocCap(n int) {
 
 // runSkipper applies one skipping facility to input (value followed by trailing bytes).
 // probeNext asks for the byte that follows (only after success).
+// skNeed: length of the value about to be skipped (0 = unknown); lets the source count Read calls issued after the
+// whole value had been delivered.
+var skNeed int
+
 func runSkipper(which string, input []byte, t int8, env EnvCfg, probeNext bool) (o skipOut) {
 	return runSkipperOpt(which, input, t, env, probeNext, true)
 }
@@ -86,10 +91,14 @@ run:
 				r = bufiox.NewBytesReader(input)
 			} else {
 				er = NewEnvReader(input, env)
+				er.Need = skNeed
 				r = bufiox.NewDefaultReader(er)
 			}
 			br := thrift.NewBufferReader(r)
 			err := br.Skip(thrift.TType(t))
+			if er != nil {
+				o.LateReads = er.LateCalls
+			}
 			o.Err, o.OK = err, err == nil
 			o.N = int(br.Readn())
 			o.ReadLen = r.ReadLen()
@@ -107,10 +116,14 @@ run:
 				r = bufiox.NewBytesReader(input)
 			} else {
 				er = NewEnvReader(input, env)
+				er.Need = skNeed
 				r = bufiox.NewDefaultReader(er)
 			}
 			d := thrift.NewSkipDecoder(r)
 			b, err := d.Next(thrift.TType(t))
+			if er != nil {
+				o.LateReads = er.LateCalls
+			}
 			o.Err, o.OK = err, err == nil
 			o.ReadLen = r.ReadLen()
 			o.N = o.ReadLen
@@ -154,8 +167,10 @@ run:
 			}
 		case skReaderSkip:
 			er = NewEnvReader(input, env)
+			er.Need = skNeed
 			d := thrift.NewReaderSkipDecoder(er)
 			b, err := d.Next(thrift.TType(t))
+			o.LateReads = er.LateCalls
 			o.Err, o.OK = err, err == nil
 			if o.OK {
 				o.Bytes, o.HasBytes = append([]byte(nil), b...), true
